@@ -121,6 +121,11 @@ def dstep (d : DSt) (line : String) : DSt × String :=
       if g "presave" == "1" then ({ d with l := Wal.saveOnly d.l (.msg (.vote v (g "ok" == "1")) (g "peer")) }, "ok") else
       finish (handle d (.msg (.vote v (g "ok" == "1")) (g "peer")))
     | _, _, _, _, _ => (d, "bad-op")
+  | "maj23" :: _ =>
+    match (g "t").toNat?, (g "h").toInt?, (g "r").toInt? with
+    | some t, some h, some r =>
+      finish (d.setN (Node.setPeerMaj23 d.n h r t (g "peer") (bidOf (parseName (g "block")))))
+    | _, _, _ => (d, "bad-op")
   | ["timeout", h, r, s] =>
     match h.toInt?, r.toInt? with
     | some h, some r => finish (handle d (.timeout h r (parseStep s)))
